@@ -336,6 +336,30 @@ pub fn op_slice(run: &mut Run, acc: &str, b: &[u8]) {
             if !s.is_empty() && !b.windows(s.len()).any(|w| w == &s[..]) {
                 run.fail("c04-slice-outside", req.clone());
             }
+            // C12 for the variable-length parts (RFC 791 / RFC 9293): on a header whose length field is well-formed the
+            // options are the octets from 20 to four times the length field, and the payload starts where they end
+            let word_len = |at: usize, high: bool| usize::from(if high { b[at] >> 4 } else { b[at] & 0xf }) * 4;
+            let expect: Option<(usize, Option<usize>)> = match acc {
+                "ipv4OptionsRaw" | "ipv4OptionsRawMut" => Some((20, Some(word_len(0, false)))),
+                "ipv4Payload" => Some((word_len(0, false), None)),
+                "tcpOptionsRaw" => Some((20, Some(word_len(12, true)))),
+                "tcpPayload" => Some((word_len(12, true), None)),
+                _ => None,
+            };
+            if let Some((from, to)) = expect {
+                let hdr = to.unwrap_or(from);
+                if hdr >= 20 && hdr <= b.len() {
+                    let ok = match to {
+                        Some(to) => s[..] == b[from..to],
+                        None => s.len() <= b.len() - from && s[..] == b[from..from + s.len()],
+                    };
+                    if !ok {
+                        run.fail("c12-slice-position", format!("{req}: the header is {hdr} octets long; {acc} returned {} octets [{}…], expected the octets from {from}{}",
+                            s.len(), hex(&s[..s.len().min(8)]), to.map_or(String::new(), |t| format!(" to {t}"))));
+                    }
+                    run.count("c12:slice-position-checked");
+                }
+            }
             run.op(req, format!("ok {}", hex(&s)));
         }
         Ok(None) => {}
